@@ -57,6 +57,13 @@ pub struct Binder<'a> {
     table_aliases: HashMap<String, String>,
     /// CTE definitions (WITH clauses)
     ctes: HashMap<String, Arc<LogicalPlan>>,
+    /// The label a reference to each CTE in scope carries (`cte_name` of its
+    /// SubqueryAlias). The physical planner materialises references with equal
+    /// labels ONCE, so two different definitions of one name (a nested WITH
+    /// that shadows an outer CTE) must not share a label.
+    cte_labels: HashMap<String, String>,
+    /// How often each CTE name has been defined in this statement so far.
+    cte_definitions: HashMap<String, u32>,
     /// Outer scope columns for correlated subqueries (name -> (type, relation))
     #[allow(dead_code)] // Reserved for correlated subquery type checking
     outer_scope: HashMap<String, (ArrowDataType, Option<String>)>,
@@ -154,6 +161,8 @@ impl<'a> Binder<'a> {
             aliases: HashMap::new(),
             table_aliases: HashMap::new(),
             ctes: HashMap::new(),
+            cte_labels: HashMap::new(),
+            cte_definitions: HashMap::new(),
             outer_scope: HashMap::new(),
             named_windows: HashMap::new(),
             allow_window: false,
@@ -172,6 +181,8 @@ impl<'a> Binder<'a> {
             aliases: HashMap::new(),
             table_aliases: HashMap::new(),
             ctes,
+            cte_labels: HashMap::new(),
+            cte_definitions: HashMap::new(),
             outer_scope,
             named_windows: HashMap::new(),
             allow_window: false,
@@ -211,6 +222,21 @@ impl<'a> Binder<'a> {
     }
 
     fn bind_query(&mut self, query: &ast::Query) -> Result<LogicalPlan> {
+        // A WITH clause is visible in its own query only: when this query ends,
+        // the names it defined go out of scope and the ones it shadowed come
+        // back (a nested `WITH c` must not replace an outer `c` for the rest
+        // of the statement).
+        if query.with.is_none() {
+            return self.bind_query_scoped(query);
+        }
+        let saved = (self.ctes.clone(), self.cte_labels.clone());
+        let plan = self.bind_query_scoped(query);
+        self.ctes = saved.0;
+        self.cte_labels = saved.1;
+        plan
+    }
+
+    fn bind_query_scoped(&mut self, query: &ast::Query) -> Result<LogicalPlan> {
         // Process CTEs (WITH clause) first
         if let Some(ref with_clause) = query.with {
             self.bind_ctes(with_clause)?;
@@ -310,7 +336,17 @@ impl<'a> Binder<'a> {
             let alias_name = cte.alias.name.value.clone();
             let cte_plan = self.bind_query(&cte.query)?;
 
-            // Store the CTE with its alias
+            // Store the CTE with its alias. The first definition of a name is
+            // labelled by the name itself, later ones get a suffix, so that
+            // references to different definitions are never shared.
+            let n = self.cte_definitions.entry(alias_name.clone()).or_insert(0);
+            *n += 1;
+            let label = if *n == 1 {
+                alias_name.clone()
+            } else {
+                format!("{alias_name}#{n}")
+            };
+            self.cte_labels.insert(alias_name.clone(), label);
             self.ctes.insert(alias_name.clone(), Arc::new(cte_plan));
         }
         Ok(())
@@ -1344,7 +1380,12 @@ impl<'a> Binder<'a> {
                         input: Arc::clone(cte_plan),
                         alias: alias_name.clone(),
                         schema: aliased_schema,
-                        cte_name: Some(table_name.clone()),
+                        cte_name: Some(
+                            self.cte_labels
+                                .get(&table_name)
+                                .cloned()
+                                .unwrap_or_else(|| table_name.clone()),
+                        ),
                     }));
                 }
 
